@@ -116,15 +116,13 @@ def valid(m):
 
 def items(tier):
     out = []
-    for kind in (MG, CRG, SMG, SCRG):
-        depth = 2 if tier == "quick" else 3
+    depth = 2 if tier == "quick" else 3
+    for kind in (SCRG, CRG, SMG, MG):         # (slowest class first)
         al = alphabet(kind)
         for ri, (rname, _) in enumerate(roots(kind)):
-            if depth == 2:
-                out.append({"part": "history", "kind": kind, "root": ri, "first": None, "depth": 2, "tier": tier})
-            else:
-                for i in range(len(al)):
-                    out.append({"part": "history", "kind": kind, "root": ri, "first": i, "depth": 3, "tier": tier})
+            for i in range(len(al)):
+                # (triples for the stereo reaction class would be 318 000 sequences of ~40 ms each: pairs only)
+                out.append({"part": "history", "kind": kind, "root": ri, "first": i, "depth": 2 if kind == SCRG else depth, "tier": tier})
     return out
 
 
